@@ -1,25 +1,12 @@
 (* CasesText.v — correspondence and specification oracles for C11, C12, C13, C14 and C20. *)
 From Astro Require Import Base Text CalSpec DateModel TimeModel ApiModel InstantSpec CronModel FormatModel ParseModel PatternSpec RfcSpec
-  Cases DateProofs WeekProofs.
+  Cases DateProofs WeekProofs ValueFields.
 
-Definition NPDz := NANOS_PER_DAY.
 Definition obs_text (r : res text) : obs := match r with Ok s => OOk [] [s] | Err _ => OErr 2 [] | Panic => OPanic end.
 Definition obs_date (r : res Z) : obs := obs_of (fun d => OOk [d] []) r.
 Definition obs_tm (r : res TM) : obs := obs_of (fun x => OOk [tm_nanos x; tm_off x] []) r.
 Definition obs_dt (r : res DT) : obs := obs_of (fun v => OOk [dt_days v; dt_nanos v; dt_off v] []) r.
 
-(* value -> documented fields *)
-Definition fields_of_day (d : Z) (clock off : Z) : vfields :=
-  let '(y, m, dd) := days_to_date d in
-  mkVF (d <? 0) y m dd (1 + d - rd (y, 1, 1)) ((d + 1) mod 7) (iso_week_exec d)
-       (clock / NANOS_PER_HOUR) (clock / NANOS_PER_MINUTE mod 60) (clock / NANOS_PER_SEC mod 60) (clock mod NANOS_PER_SEC) off.
-Definition fields_of (kind : Z) (val : list Z) : option vfields :=
-  match kind, val with
-  | 0, [d] => Some (fields_of_day d 0 0)
-  | 1, [n; o] => Some (fields_of_day 0 ((n + o * NANOS_PER_SEC) mod NPDz) o)
-  | 2, [d; n; o] => let l := d * NPDz + n + o * NANOS_PER_SEC in Some (fields_of_day (l / NPDz) (l mod NPDz) o)
-  | _, _ => None
-  end.
 Definition nvals (kind : Z) : nat := match kind with 0 => 1%nat | 1 => 2%nat | _ => 3%nat end.
 
 (* items sent by the harness: [n; (k, a, b) * n]; quoted texts are strs[1 + a] *)
